@@ -1,6 +1,7 @@
 package main
 
 import (
+	"regexp"
 	"os"
 	"path/filepath"
 	"sort"
@@ -178,13 +179,46 @@ var forkSkips = map[string]string{
 	"http2.init":                              "package initialiser (synthetic and declared init share the name); package-level tables are compared by value instead",
 }
 
-// forkSiblingRule compares the fork's functions declared in the given files (path suffixes; none = whole package) with upstream.
+// Which functions of the vendored HTTP/2 code bear on which property (regular expressions over rendered function names).
+// The sibling comparison of a property is restricted to them, so that a deviation elsewhere alarms only the property it concerns.
+var propFuncs = map[string][]string{
+	"C08": {`^\(\*http2\.pipe\)`, `^\(\*http2\.dataBuffer\)`, `^http2\.(getDataBufferChunk|putDataBufferChunk)$`, `^\(\*http2\.writeData\)`, `^\(\*http2\.writeResHeaders\)`, `^http2\.(encodeHeaders|encKV|splitHeaderBlock|writeEndsStream)`,
+		`^\(\*http2\.responseWriter(State)?\)`, `^\(\*http2\.requestBody\)`, `^\(\*http2\.serverConn\)\.(writeDataFromHandler|writeFrameFromHandler|writeHeaders|write100ContinueHeaders|newWriterAndRequest|newWriterAndRequestNoBody|newResponseWriter|processData|writeFrameAsync|wroteFrame|runHandler)$`,
+		`^\(\*http2\.stream\)\.(endStream|copyTrailersToHandlerRequest|processTrailerHeaders)$`, `^http2\.(checkWriteHeaderCode|cloneHeader|foreachHeaderElement)$`, `^\(\*http2\.writeQueue\)`, `^\(http2\.FrameWriteRequest\)\.Consume$`},
+	"C10": {`^http2\.(parse|read)`, `^\(\*http2\.Framer\)\.(ReadFrame|readMetaFrame|checkFrameOrder|maxHeaderStringLen|maxHeaderListSize)`, `^\(\*http2\.serverConn\)\.(readFrames|writeFrameAsync|serve|notePanic|runHandler|sendServeMsg|readPreface|processFrameFromReader|setConnState|onSettingsTimer|onIdleTimer|onReadIdleTimer|onShutdownTimer|handlePingTimer)$`,
+		`^\(\*http2\.Server\)\.(ServeConn|serveConn)$`, `^\(\*http2\.stream\)\.(onReadTimeout|onWriteTimeout)$`, `^\(\*http2\.(write[A-Za-z]+|flushFrameWriter|handlerPanicRST)\)`, `^\(http2\.(write[A-Za-z]+|StreamError|flushFrameWriter|handlerPanicRST|write100ContinueHeadersFrame)\)`, `^\(\*http2\.(SettingsFrame|MetaHeadersFrame|HeadersFrame|DataFrame|FrameHeader)\)`, `^http2\.(splitHeaderBlock|terminalReadFrameError|isClosedConnError)`},
+	"C11": {`^\(\*http2\.serverConn\)\.(serve|readFrames|writeFrameAsync|closeAllStreamsOnConnClose|stopShutdownTimer|closeStream|onSettingsTimer|onIdleTimer|onReadIdleTimer|onShutdownTimer|handlePingTimer|sendServeMsg|readPreface|startGracefulShutdown|startGracefulShutdownInternal|goAway|shutDownIn|scheduleFrameWrite|wroteFrame|processHeaders|newStream|runHandler|handlerDone|writeFrameFromHandler|writeDataFromHandler|writeHeaders|noteBodyReadFromHandler)$`,
+		`^\(\*http2\.Server\)\.(ServeConn|serveConn|afterFunc|newTimer|now|markNewGoroutine)$`, `^\(\*http2\.stream\)\.(onReadTimeout|onWriteTimeout)$`, `^\(http2\.timeTimer\)`, `^\(\*http2\.responseWriter\)\.(SetReadDeadline|SetWriteDeadline|CloseNotify|handlerDone)`, `^http2\.(h1ServerKeepAlivesDisabled|configFromServer|fillNetHTTPServerConfig|setConfigDefaults|setDefault)`},
+	"C12": {`^\(\*http2\.(outflow|inflow)\)`, `^http2\.takeInflows$`, `^\(http2\.FrameWriteRequest\)\.Consume$`, `^\(\*http2\.writeQueue\)\.consume$`,
+		`^\(\*http2\.serverConn\)\.(processData|processWindowUpdate|processSettingInitialWindowSize|processSetting|processSettings|sendWindowUpdate|sendWindowUpdate32|noteBodyRead|noteBodyReadFromHandler|closeStream|newStream|serve|scheduleFrameWrite|startFrameWrite|wroteFrame|writeFrame|resetStream)$`, `^\(\*http2\.Server\)\.serveConn$`,
+		`^\(\*http2\.requestBody\)\.Read$`, `^\(\*http2\.clientStream\)\.(awaitFlowControl|writeRequestBody)$`, `^\(\*http2\.clientConnReadLoop\)\.(processData|processWindowUpdate|processSettingsNoWrite)`, `^\(http2\.transportResponseBody\)`, `^\(\*http2\.ClientConn\)\.addStreamLocked$`, `^\(\*http2\.Transport\)\.newClientConn$`},
+	"C13": {`^\(\*http2\.serverConn\)\.(processFrameFromReader|processHeaders|processData|processResetStream|processPriority|processSettings|processSetting|processSettingInitialWindowSize|processPing|processGoAway|processWindowUpdate|state|checkPriority|scheduleHandler|handlerDone|newStream|closeStream|goAway|resetStream|newWriterAndRequest|newWriterAndRequestNoBody|scheduleFrameWrite|upgradeRequest|startPush|countError|curOpenStreams)`,
+		`^\(\*http2\.stream\)\.(processTrailerHeaders|endStream|isPushed)$`, `^http2\.(checkValidHTTP2RequestHeaders|validPseudoPath|new400Handler|handleHeaderListTooLong|streamError|validWireHeaderFieldName|lowerHeader)$`,
+		`^\(\*http2\.MetaHeadersFrame\)`, `^\(\*http2\.Framer\)\.(checkFrameOrder|readMetaFrame|ReadFrame)$`, `^\(http2\.(Setting|ErrCode|StreamError|ConnectionError|streamState|FrameType|Flags)\)`, `^\(\*http2\.writeGoAway\)`, `^\(http2\.goAwayFlowError\)`, `^http2\.typeFrameParser$`, `^http2\.parse`},
+}
+
+// forkSiblingRule compares with upstream the fork's functions that bear on property prop (or, with files given, those declared
+// in the named files).
 func forkSiblingRule(r *R, rule string, files ...string) {
 	c := r.C
+	prop := r.Prop
+	var pats []*regexp.Regexp
+	for _, p := range propFuncs[prop] {
+		pats = append(pats, regexp.MustCompile(p))
+	}
 	var fns []*ssa.Function
 	for _, f := range c.FuncsIn("pkg/http2") {
-		if len(files) == 0 {
-			fns = append(fns, f)
+		if len(pats) > 0 {
+			n := funcName(f)
+			if f.Parent() != nil {
+				continue
+			}
+			for _, re := range pats {
+				if re.MatchString(n) {
+					fns = append(fns, f)
+					break
+				}
+			}
 			continue
 		}
 		fname := c.Fset.Position(f.Pos()).Filename
@@ -196,7 +230,6 @@ func forkSiblingRule(r *R, rule string, files ...string) {
 	}
 	siblingCompare(r, rule, "pkg/zz_ref_http2", fns, forkSkips, "vendored HTTP/2 function")
 }
-
 
 // forkTablesRule compares the package-level initialisers (lookup tables, constants) of the fork with upstream.
 func forkTablesRule(r *R, rule string) {
